@@ -57,7 +57,8 @@ def decompress():
 
             def on_next(i):
                 try:
-                    data = decompressor.decompress(i)
+                    # an empty chunk received after the end of the frame is not an error
+                    data = decompressor.decompress(i) if len(i) > 0 else b''
                     observer.on_next(data)
                 except Exception as e:
                     observer.on_error(e)
